@@ -581,35 +581,72 @@ void h_f_crs_move_ctor(void) { crs *s, *o; f_crs_move_ctor(s, o); }
     enforce='f_crs_move_ctor', mode='loopfree', model='uf', timeout=120, replay='kernels', obj_bits=10,
     assumptions=['A-alias: *this and other are distinct objects (is_fresh)', 'A-delete / A-new: no allocation or delete[] occurs (ghost counters stay 0)'],
 )
-crs_move_assign = Unit(
-    name='crs_move_assign', props=['C08', 'C10'],
-    functions=['backend::crs::operator=(crs &&other)'],
-    desc='move assignment: the two matrices exchange all seven fields (sizes, arrays, ownership flag): the target becomes the source, the '
-         'old arrays of the target travel with their ownership flag to the source object whose destructor releases them (no leak, no copy, no delete here)',
-    cuts={'body': Cut(BUILTIN, r'const crs& operator=\(crs &&other\)\s*(?=\{)',
-                      rules=member_rules() + [Rule(r'return \*this;', 'return;', None, why='reference to self not needed in the C view')])},
-    template=CRSM_PRELUDE + r'''
+MOVE_ASSIGN_TEMPLATE = CRSM_PRELUDE + r"""
+/* crs::free_data(), the real body (its own contract is unit adapt_crs_free_data) */
+static void crs_free_data(crs *self)
+{
+/*@CUT:free_data@*/
+}
+/* The contract is written from the property (C17: zero-copy matrices never copy or free user memory; C10: no leak, no
+ * double free, no dangling owned pointer), not from one implementation: it admits "exchange the two objects" as well as
+ * "release the target's storage, then steal the source's".  For an array a of the old target (tracked: g_trk_a):
+ *   released here  <=> g_del_a;    parked in the source  <=> other.a == old target.a                                  */
+#define OLD_OWNED_OK(a, del)  ((__CPROVER_old(self->a) == 0) || \
+    ((del) ? other_p->a != __CPROVER_old(self->a)                                  /* released here exactly once, not kept */ \
+           : (other_p->a == __CPROVER_old(self->a) && other_p->own_data)))         /* or parked in the source WITH ownership */
+#define OLD_BORROWED_OK(a, del) ((__CPROVER_old(self->a) == 0) || \
+    (!(del) && (other_p->a != __CPROVER_old(self->a) || !other_p->own_data)))      /* user memory: never released, never handed to an owner */
+#define SRC_LEFT_OK(a, del) (other_p->a == 0 || !other_p->own_data || \
+    (other_p->a == __CPROVER_old(self->a) && !(del) && __CPROVER_old(self->own_data)))  /* an owning moved-from object holds only live arrays that were owned */
 void f_crs_move_assign(crs *self, crs *other_p)
-''' + MOVE_REQ + r'''
-__CPROVER_assigns(*self, *other_p)
+""" + MOVE_REQ + r"""
+__CPROVER_requires(!g_del_ptr && !g_del_col && !g_del_val)
+__CPROVER_requires(g_trk_ptr == self->ptr && g_trk_col == self->col && g_trk_val == self->val)
+/* A-alias: the two matrices share no array */
+__CPROVER_requires((self->ptr == 0 || (self->ptr != other_p->ptr && self->ptr != (const void *)other_p->col && self->ptr != (const void *)other_p->val)))
+__CPROVER_requires((self->col == 0 || (self->col != (const void *)other_p->ptr && self->col != other_p->col && self->col != (const void *)other_p->val)))
+__CPROVER_requires((self->val == 0 || (self->val != (const void *)other_p->ptr && self->val != (const void *)other_p->col && self->val != other_p->val)))
+__CPROVER_requires((const void *)self->ptr != (const void *)self->col || self->ptr == 0)
+__CPROVER_requires((const void *)self->ptr != (const void *)self->val || self->ptr == 0)
+__CPROVER_requires((const void *)self->col != (const void *)self->val || self->col == 0)
+__CPROVER_assigns(*self, *other_p, g_deletes, g_del_ptr, g_del_col, g_del_val)
+/* the target becomes the source: sizes, the three arrays (no copy) and the OWNERSHIP FLAG */
 __CPROVER_ensures(self->nrows == __CPROVER_old(other_p->nrows) && self->ncols == __CPROVER_old(other_p->ncols) && self->nnz == __CPROVER_old(other_p->nnz))
 __CPROVER_ensures(self->ptr == __CPROVER_old(other_p->ptr) && self->col == __CPROVER_old(other_p->col) && self->val == __CPROVER_old(other_p->val))
 __CPROVER_ensures(self->own_data == __CPROVER_old(other_p->own_data))
-/* C10: the old content of the target is not lost: the source object now holds it together with its ownership flag */
-__CPROVER_ensures(other_p->nrows == __CPROVER_old(self->nrows) && other_p->ncols == __CPROVER_old(self->ncols) && other_p->nnz == __CPROVER_old(self->nnz))
-__CPROVER_ensures(other_p->ptr == __CPROVER_old(self->ptr) && other_p->col == __CPROVER_old(self->col) && other_p->val == __CPROVER_old(self->val))
-__CPROVER_ensures(other_p->own_data == __CPROVER_old(self->own_data))
-__CPROVER_ensures(g_allocs == 0 && g_deletes == 0 && g_thrown == 0)
+/* the old arrays of the target: owned -> released exactly once, here or (parked with ownership) by the source's destructor;
+ * borrowed (zero-copy view of user memory) -> not released here and not handed to an owner */
+__CPROVER_ensures(__CPROVER_old(self->own_data)
+    ? (OLD_OWNED_OK(ptr, g_del_ptr) && OLD_OWNED_OK(col, g_del_col) && OLD_OWNED_OK(val, g_del_val))
+    : (OLD_BORROWED_OK(ptr, g_del_ptr) && OLD_BORROWED_OK(col, g_del_col) && OLD_BORROWED_OK(val, g_del_val)))
+/* nothing else is released (in particular not the arrays that now belong to the target), nothing allocated */
+__CPROVER_ensures(g_deletes == (unsigned)g_del_ptr + (unsigned)g_del_col + (unsigned)g_del_val && g_allocs == 0 && g_thrown == 0)
+/* the moved-from object can be destroyed safely: what it owns is live, was owned, and is not also held by the target */
+__CPROVER_ensures(SRC_LEFT_OK(ptr, g_del_ptr) && SRC_LEFT_OK(col, g_del_col) && SRC_LEFT_OK(val, g_del_val))
 {
 #define other (*other_p)
 /*@CUT:body@*/
 #undef other
 }
 void h_f_crs_move_assign(void) { crs *s, *o; f_crs_move_assign(s, o); }
-''',
+"""
+crs_move_assign = Unit(
+    name='crs_move_assign', props=['C08', 'C10', 'C17'],
+    functions=['backend::crs::operator=(crs &&other)', 'backend::crs::free_data()'],
+    desc='move assignment (distinct objects): the target takes the sizes, the three arrays (no copy) and the ownership flag of the source; '
+         'every array the old target owned is released exactly once -- here, or by the moved-from object which then holds it with ownership; '
+         'arrays the old target only borrowed (zero-copy view of user memory) are neither released nor handed to an owner; nothing else is '
+         'released or allocated; the moved-from object owns only live arrays',
+    cuts={'free_data': FREE_DATA_CUT,
+          'body': Cut(BUILTIN, r'const crs& operator=\(crs &&other\)\s*(?=\{)',
+                      rules=[Rule(r'(?<![\w.>])free_data\(\);', 'crs_free_data(self);', None, why='R-member-call'),
+                             Rule(r'\bthis\b', 'self', None, why='this -> self'),
+                             Rule(r'return \*self;', 'return;', None, why='reference to self not needed in the C view')] + member_rules())},
+    template=MOVE_ASSIGN_TEMPLATE,
     enforce='f_crs_move_assign', mode='loopfree', model='uf', timeout=120, replay='kernels', obj_bits=10,
-    assumptions=['A-alias: *this and other are distinct objects (is_fresh)', 'A-std: std::swap(a, b) exchanges a and b (macro)',
-                 'A-own: that the destructor of the moved-from object later releases the exchanged arrays is crs::~crs / free_data (units adapt_crs_dtor, adapt_crs_free_data)'],
+    assumptions=['A-alias: *this and other are distinct objects sharing no array (is_fresh / requires)', 'A-std: std::swap(a, b) exchanges a and b (macro)',
+                 'A-delete: delete[] p is the ghost event ghost_delete(p) (null: no effect)',
+                 'A-own: that the destructor of the moved-from object releases what it owns is crs::~crs / free_data (units adapt_crs_dtor, adapt_crs_free_data)'],
 )
 UNITS += [crs_move_ctor, crs_move_assign]
 
